@@ -7,7 +7,8 @@ import warnings
 import core
 from core import Driver, rat
 from pool import err_kind, run_pool
-from props.lp_common import enc_mat, enc_num, enc_point, enc_vec, gen_lp
+from props.lp_common import (RecCtx, enc_mat, enc_num, enc_point, enc_vec, gen_lp, lp_candidates, shrink,
+                              write_min)
 
 AREAS = ["Lp"]
 LEVEL = "proof"
@@ -247,13 +248,59 @@ def judge(ctx, case, out, reply):
 
 
 def run_cases(ctx, cases):
+    """returns the list of (function, class, case) that failed"""
     outs = run_pool(impl, cases, timeout=60.0)
     reqs = [to_request(c, o) for c, o in zip(cases, outs)]
     replies = Driver("Lp").run(reqs, chunks=16)
+    failed = []
+    orig_fail = ctx.fail
+
     for c, o, rp in zip(cases, outs, replies):
         if rp and rp[0] == "error":
             raise core.Infra(f"model rejected request: {rp} for {c}")
-        judge(ctx, c, o, rp)
+
+        def rec(function, klass, what, replay, no_input=False, _c=c):
+            failed.append((function, klass, _c))
+            return orig_fail(function, klass, what, replay, no_input)
+        ctx.fail = rec
+        try:
+            judge(ctx, c, o, rp)
+        finally:
+            ctx.fail = orig_fail
+    return failed
+
+
+def fails_batch(target):
+    def run(cands):
+        out = []
+        recs = [RecCtx() for _ in cands]
+        outs = run_pool(impl, cands, timeout=60.0)
+        reqs = [to_request(c, o) for c, o in zip(cands, outs)]
+        try:
+            replies = Driver("Lp").run(reqs, chunks=8)
+        except core.Infra:
+            return [False] * len(cands)
+        for c, o, rp, r in zip(cands, outs, replies, recs):
+            if rp and rp[0] == "error":
+                out.append(False); continue
+            try:
+                judge(r, c, o, rp)
+            except core.Infra:
+                out.append(False); continue
+            out.append(target in r.failed)
+        return out
+    return run
+
+
+def shrink_failures(ctx, failed, limit=2):
+    """minimise the first failing input of (at most `limit`) distinct (function, class) pairs"""
+    seen = set()
+    for function, klass, case in failed:
+        if (function, klass) in seen or len(seen) >= limit:
+            continue
+        seen.add((function, klass))
+        small, hist = shrink(case, lp_candidates, fails_batch((function, klass)))
+        write_min(ctx, "C03", function, klass, small, hist)
 
 
 def run(ctx, budget):
@@ -262,9 +309,13 @@ def run(ctx, budget):
     cases = list(edge_cases()) + [c["case"] for c in core.load_corpus("C03")]
     n = (1400 if budget == 1 else 2000 * budget)   # quick tier trimmed: must stay <= 60 s on a loaded box
     cases += [gen_case(ctx.rng, big=(ctx.tier == "thorough" and i % 3 == 0)) for i in range(n)]
-    run_cases(ctx, cases)
+    failed = run_cases(ctx, cases)
+    if failed and not getattr(ctx, "seed_shift", 0):
+        shrink_failures(ctx, failed)
 
 
 def replay(ctx, body):
     ctx.cov["rule"] = RULE
-    run_cases(ctx, [body["case"]])
+    failed = run_cases(ctx, [body["case"]])
+    if failed and not body.get("minimised"):
+        shrink_failures(ctx, failed)
